@@ -1228,3 +1228,13 @@ PROPS["C12"]["level_note"] += (' C12_oracle_sound_sweep / C12_oracle_sound_claim
 PROPS["C12"]["partial_gap"] += (' UPDATE: sweep_bound and post_claim_scan_incomplete are now covered (C12_oracle_sound_sweep, '
     'C12_oracle_sound_claim_scan; 30 theorems in coq/Properties/C12.v); of the oracle-soundness chain only the liveness rule gap_wait_never_ends '
     'remains open (needs exact tracking of pending_bytes / last_bus_activity against the monitor\'s l_ref / l_spur).')
+PROPS["C12"]["level_note"] += (' C12_oracle_sound_gap_wait / C12_oracle_sound (Proofs/C12OracleSound.v, part 3): the liveness rule '
+    'R12_gap_wait_never_ends is never reported on a model transcript either, so with app_sends_requests NO rule of C12 is reported on any model '
+    'transcript (C12_oracle_sound: rule_prop r <> PC12). Proof: exact tracking of last_bus_activity / pending_bytes in the states that await a GAP '
+    'reply (await_poll_exact: a poll that stays in such a state either stops at the ongoing-transmission check or looks at the buffer with the slot '
+    'timer not run out; entry_plb: every entry is a transmission that leaves pending_bytes >= bytes buffered) and the simulation LW '
+    '(last_bus_activity <= l_ref, l_txend <= last_bus_activity, pending_bytes = buffer length unless l_spur).')
+PROPS["C12"]["partial_gap"] += (' UPDATE 2: gap_wait_never_ends is covered too (C12_oracle_sound_gap_wait, C12_oracle_sound; 32 theorems): the '
+    'oracle-soundness chain of C12 is closed for model transcripts under apps_total, builder_valid, app_sends_data, app_sends_requests, ins_ok '
+    '(strictly increasing poll times). What remains outside Coq is the usual link model <-> Rust (differential testing) and the hook-based fields '
+    'of the view (v_gap_due, v_scan_await).')
